@@ -148,12 +148,14 @@ def opt_project(t, f):
         x = t[1]
         if isinstance(x, tuple) and x and x[0] == 'struct' and isinstance(x[2], dict) and f in x[2]:
             return some(x[2][f])
+        if isinstance(x, tuple) and x and x[0] == 'tuple' and f.isdigit() and int(f) < len(x[1]):
+            return some(x[1][int(f)])
         if isinstance(x, tuple) and x and x[0] == 'phi':
             return phi(x[1], opt_project(some(x[2]), f), opt_project(some(x[3]), f))
-        return some(('fieldof', x, f))
+        return some(('proj', x, int(f)) if f.isdigit() else ('fieldof', x, f))
     if t[0] == 'phi':
         return phi(t[1], opt_project(t[2], f), opt_project(t[3], f))
-    return phi(is_some(t), some(('fieldof', payload(t), f)), NONE)
+    return phi(is_some(t), some(('proj', payload(t), int(f)) if f.isdigit() else ('fieldof', payload(t), f)), NONE)
 
 
 def neg_cond(c):
@@ -271,7 +273,11 @@ class VG:
         if path not in self.fields and self.oos_names(path):
             names = self.oos_names(path)
             comps = {n_: self.get_field(path + '.' + n_) for n_ in names}
-            return phi(is_some(comps[names[0]]), some(('struct', 'payload-of:' + path, {n_: payload(comps[n_]) for n_ in names})), NONE)
+            if all(n_.isdigit() for n_ in names):
+                inner_ = ('tuple', tuple(payload(comps[n_]) for n_ in names))       # Option<(A, B)>
+            else:
+                inner_ = ('struct', 'payload-of:' + path, {n_: payload(comps[n_]) for n_ in names})
+            return phi(is_some(comps[names[0]]), some(inner_), NONE)
         if path not in self.fields and self.small_array_len(path) is not None:
             return ('seq_lit', tuple(self.get_field('%s.%d' % (path, i)) for i in range(self.small_array_len(path))))
         if path not in self.fields:
